@@ -12,6 +12,8 @@ import Rtsp.Model.Codec.Fragmented
 import Rtsp.Model.Codec.Mpeg1Video
 import Rtsp.Model.Codec.AudioCommon
 import Rtsp.Model.Codec.Lpcm
+import Rtsp.Generated.Trans.PcMpegts
+import Rtsp.Generated.Facts.CodecMisc
 import Rtsp.Generated.Facts.CodecH26x
 import Rtsp.Generated.Facts.CodecAudio
 /-
@@ -221,5 +223,28 @@ theorem lpcm_roundedMax_eq (mx ss : Nat) (hm : mx < 2 ^ 63) (hs : 0 < ss) (hs' :
   have hprod : (q : Int) * (ss : Int) = ((q * ss : Nat) : Int) := by push_cast; rfl
   rw [toInt_mul_of_inRange] <;> rw [hQ, hS, hprod]
   unfold InRange64; omega
+
+/-- MPEG-TS `Encode`: TS packets per RTP packet = `PayloadMaxSize / 188` (188 = the regenerated
+`mpegtsPacketSize`), and the RTP packet count is the same ceiling division as `packetCount`
+(quotient, plus one when the remainder is not zero) — the model's `encode` computes exactly these. -/
+theorem mpegts_eq (mx n per : Nat) (hm : mx < 2 ^ 63) (hn : n < 2 ^ 63) (hp : 0 < per) (hp' : per < 2 ^ 63) :
+    (Trans.PcMpegts.perPacket (Int64.ofNat mx)).toInt = ((mx / Facts.CodecMisc.mpegtsPacketSize : Nat) : Int)
+    ∧ ((if Trans.PcMpegts.needsOneMore (Int64.ofNat n) (Int64.ofNat per)
+          then Trans.PcMpegts.rtpPacketCount0 (Int64.ofNat n) (Int64.ofNat per) + 1
+          else Trans.PcMpegts.rtpPacketCount0 (Int64.ofNat n) (Int64.ofNat per)).toInt
+        = ((n / per + (if n % per ≠ 0 then 1 else 0) : Nat) : Int)) := by
+  constructor
+  · unfold Trans.PcMpegts.perPacket
+    have k : Facts.CodecMisc.mpegtsPacketSize = 188 := by decide
+    have hM := toInt_ofNat_of_lt hm
+    have c : (188 : Int64).toInt = 188 := rfl
+    have hdiv : ((mx : Int).tdiv 188) = ((mx / 188 : Nat) : Int) := by
+      rw [Int.tdiv_eq_ediv_of_nonneg (by omega)]; simp
+    rw [k, toInt_div_of_inRange] <;> rw [hM, c, hdiv]
+    unfold InRange64; omega
+  · have h := pcGen_eq per n hp hp' hn
+    unfold pcGen pcNat at h
+    unfold Trans.PcMpegts.needsOneMore Trans.PcMpegts.rtpPacketCount0
+    split at h <;> rename_i hc <;> simp only [hc, ↓reduceIte] <;> exact h
 
 end Rtsp.Bridge.Pc
